@@ -122,6 +122,13 @@ Holds(W, t, a) ==
     [] t.k = "endswith"   -> Sat(W, t.bound, a.c) /\ a.v.t = "str" /\ IsSuffixSeq(t.p, a.v.v)
     [] t.k = "haskey"     -> /\ Sat(W, t.bound, a.c) /\ a.v.t = "dict"
                              /\ \A q \in DOMAIN t.keys : \E j \in DOMAIN a.v.ks : ValEq(t.keys[q], a.v.ks[j])
+    \* Callable[[A1, .., An], R] (docs/types.md): a function value [t |-> "fn", pos, req, kwreq, ret] that can be called
+    \* with n positional arguments (no required keyword-only parameter), whose parameter types admit the Ai
+    \* (contravariant) and whose return annotation is below R
+    [] t.k = "callable"   -> /\ a.v.t = "fn"
+                             /\ Len(t.args) >= a.v.req /\ Len(t.args) <= Len(a.v.pos) /\ ~a.v.kwreq
+                             /\ \A j \in DOMAIN t.args : IsSub(W, t.args[j].c, a.v.pos[j])
+                             /\ IsSub(W, a.v.ret, t.ret.c)
     [] OTHER -> FALSE
 
 (***************************************************************************)
